@@ -358,6 +358,24 @@ def fix_loop(node):
     return node
 
 
+def suites_ok(body):
+    """no control-line suite made of <%def>s only (mako emits nothing in place of a def: empty Python suite)"""
+    for n in body:
+        k = n[0]
+        for slot in G.BODY_SLOTS.get(k, ()):
+            sub = n[slot]
+            if k in ("if", "for", "while", "try") and sub and all(c[0] == "def" for c in sub):
+                return False
+            if not suites_ok(sub):
+                return False
+    return True
+
+
+def wellformed(bodies):
+    """the generator's invariants that tree reduction could break"""
+    return all(loops_ok(b) and suites_ok(b) for b in bodies)
+
+
 def loops_ok(body, in_for=False):
     """the generator's `loop` invariant (shrinking must not leave it): `loop.index` only below a `% for` of the same
     callable scope, and every `% for` that mako mangles has a LoopStack in its scope"""
